@@ -157,6 +157,18 @@ def property_checks(inp):
                     vi = numpy.asarray(f(rr, *a), dtype=float); vf = numpy.asarray(f(rr.astype(float), *a), dtype=float)
                     worst_int = max(worst_int, float(numpy.max(numpy.abs(vi - vf) / numpy.maximum(numpy.abs(vf), 1e-300))) if vi.shape == vf.shape else float("inf"))
         A(("integer-typed separation arrays give the values of the same separations as floats", worst_int, 1e-12))
+        # every function acts elementwise on arrays of ANY shape (2 x 2 separation matrices, (k, 2) tables, 3-d stacks): the value
+        # at an element is the value of the scalar call, whatever the array's shape suggests
+        worst_shape = 0.0
+        base_r = L0 * numpy.array([3e-3, 0.02, 0.11, 0.4, 1.3, 2.9, 7.0, 0.05, 0.6, 0.9, 3.3, 12.0])
+        for shp in ((2, 2), (6, 2), (2, 6), (3, 2, 2), (1, 2), (2,), (12, 1)):
+            rr_ = base_r[:int(numpy.prod(shp))].reshape(shp)
+            for f_, a_ in ((sc.structure_function_vk, (r0, L0)), (sc.structure_function_kolmogorov, (r0,)), (turb.phase_covariance, (r0, L0)),
+                           (kl.stf_vonKarman, (L0,)), (kl.stf_kolmogorov, ())):
+                got_ = numpy.asarray(f_(rr_.copy(), *a_), dtype=float)
+                ref_ = numpy.array([float(numpy.asarray(f_(float(x_), *a_))) for x_ in rr_.ravel()]).reshape(shp)
+                worst_shape = max(worst_shape, float(numpy.max(numpy.abs(got_ - ref_) / numpy.maximum(numpy.abs(ref_), 1e-300))) if got_.shape == ref_.shape else float("inf"))
+        A(("every function is elementwise on arrays of any shape (value = scalar call at that element)", worst_shape, 1e-5))
         # the names the package exports are these functions (a second definition shadowing one of them changes what users get)
         import aotools, aotools.turbulence as T_, aotools.functions as F_
         worst_pub, missing_pub = 0.0, 0
